@@ -78,7 +78,7 @@ func runC14(c *Ctx) error {
 	ncli := envInt("VERIF_C14_CLI", 10)
 	if thorough {
 		nprog = envInt("VERIF_C14_PROGRAMS", 40000)
-		nfull = envInt("VERIF_C14_FULL", 1500)
+		nfull = envInt("VERIF_C14_FULL", 1000)
 		ncli = envInt("VERIF_C14_CLI", 300)
 	}
 	pool := NewPool(c.sc.Worker, c.Workers, 1)
